@@ -14,7 +14,7 @@ CLAIMED = {
  "C03": ("Tally and escalation kernels: bounded symbolic vote histories over the real VoteSta against 'first votes of non-equivocating senders'; one step of the real judgeVoteCount from an arbitrary voter state (precommit only on a prevote quorum, certificate vote / commit only with every required quorum); the real float64 OverThreshold against the rational fractions 0.685 T / 0.585 T in the FloatingPoint theory (reaching the fraction passes; passing is less than one vote below it); bounded vote histories through the real VotesWrapper/judgeVoteCount/commit, also across a real round-index change: every posted CommitEvent carries vote sets that reach their quorums.",
          "Trusted: gosym, z3. NOT covered: message caching, goroutines, credential checks of incoming votes. One open known finding (commit packs vote sets reduced by a later equivocation).",
          "solver-based symbolic execution of go/ssa (bv + FloatingPoint lemma)"),
- "C04": ("Control skeleton only: search on every monotone predicate; choose's branches with gonum's CDF as an unknown non-decreasing function (least-j quantile, 0<=j<=stake, mirrored branch); MakeM injectivity; VrfVerifySortition/VrfVerifyPriority bind key, message, stake, threshold/total and seat count under an idealised VRF; computePriority is the maximum per-seat hash, every seat with its own hash input up to committee-sized seat counts.",
+ "C04": ("Control skeleton only: search on every monotone predicate; choose's branches with gonum's CDF as an unknown non-decreasing function (least-j quantile, 0<=j<=stake, mirrored branch); MakeM injectivity; VrfVerifySortition/VrfVerifyPriority bind key, message, stake, threshold/total and seat count under an idealised VRF; computePriority is the maximum per-seat hash, every seat with its own hash input up to committee-sized seat counts; the VRF's ProofToHash (group and hashes uninterpreted) takes its challenge over message point, key and VRF point.",
          "Trusted: gosym, z3 (FloatingPoint + UF). NOT covered (the numeric heart): that gonum's float64 incomplete-beta CDF is the binomial CDF, float rounding, stakes beyond the small bound. One open known finding (zero-seat proposer).",
          "solver-based symbolic execution of go/ssa with uninterpreted monotone CDF"),
  "C05": ("Real processDoubleSignV5/doPenalize/takePenalty on the real StateDB with an arbitrary well-typed evidence and BLS idealised behind the repo's interfaces with a signing oracle (honest: at most one hash per vote kind per round/index): honest safety, equivocation penalised once within the fraction and credited to the penalty account, takePenalty cap/conservation/non-negativity/consistency with delegations and pending withdrawals.",
